@@ -35,6 +35,70 @@ fn b_of(n: u32) -> B {
 fn b_str(b: &B) -> String {
     if b_of(b.0).1 == b.1 { b.0.to_string() } else { format!("{}!corrupt", b.0) }
 }
+// command markers (cfg markers=1): a client entity carrying `MA` keeps what the server sends for `A` in `ShadowA` (a history
+// marker: it is also handed values OLDER than the entity's confirmed tick and keeps the newest), one carrying `MB` keeps `B`
+// in `ShadowB`.  The client view reports the shadow where there is one, so the oracles do not need to know about markers.
+#[derive(Component)]
+struct MA;
+#[derive(Component)]
+struct MB;
+#[derive(Component)]
+struct ShadowA(u32, RepliconTick);
+#[derive(Component)]
+struct ShadowB(B);
+
+fn write_shadow_a(
+    ctx: &mut bevy_replicon::shared::replication::replication_registry::ctx::WriteCtx,
+    rule_fns: &bevy_replicon::shared::replication::replication_registry::rule_fns::RuleFns<A>,
+    entity: &mut bevy_replicon::shared::replication::deferred_entity::DeferredEntity,
+    message: &mut Bytes,
+) -> Result<()> {
+    let a: A = rule_fns.deserialize(ctx, message)?;
+    let tick = ctx.message_tick;
+    // a history marker is also handed values older than the entity's confirmed tick; this one only keeps the newest value,
+    // so anything older than what the entity has confirmed (e.g. a value from before a removal) is dropped
+    if let Some(last) = entity.get_mut::<ConfirmHistory>().map(|h| h.last_tick()) {
+        if tick < last {
+            return Ok(());
+        }
+    }
+    if let Some(mut sh) = entity.get_mut::<ShadowA>() {
+        if tick >= sh.1 {
+            sh.0 = a.0;
+            sh.1 = tick;
+        }
+    } else {
+        entity.insert(ShadowA(a.0, tick));
+    }
+    Ok(())
+}
+fn remove_shadow_a(
+    _ctx: &mut bevy_replicon::shared::replication::replication_registry::ctx::RemoveCtx,
+    entity: &mut bevy_replicon::shared::replication::deferred_entity::DeferredEntity,
+) {
+    entity.remove::<ShadowA>().remove::<A>();
+}
+fn write_shadow_b(
+    ctx: &mut bevy_replicon::shared::replication::replication_registry::ctx::WriteCtx,
+    rule_fns: &bevy_replicon::shared::replication::replication_registry::rule_fns::RuleFns<B>,
+    entity: &mut bevy_replicon::shared::replication::deferred_entity::DeferredEntity,
+    message: &mut Bytes,
+) -> Result<()> {
+    let b: B = rule_fns.deserialize(ctx, message)?;
+    if let Some(mut sh) = entity.get_mut::<ShadowB>() {
+        sh.0 = b;
+    } else {
+        entity.insert(ShadowB(b));
+    }
+    Ok(())
+}
+fn remove_shadow_b(
+    _ctx: &mut bevy_replicon::shared::replication::replication_registry::ctx::RemoveCtx,
+    entity: &mut bevy_replicon::shared::replication::deferred_entity::DeferredEntity,
+) {
+    entity.remove::<ShadowB>().remove::<B>();
+}
+
 #[derive(Component, Serialize, Deserialize, Clone, Copy)]
 struct O(u32);
 #[derive(Component, Serialize, Deserialize, Clone, Copy, MapEntities)]
@@ -201,6 +265,8 @@ enum Sop {
 enum Cop {
     Prespawn(u32),
     Despawn(u32),
+    /// server entity, insert MA, insert MB: markers go on the client's entity for that server entity (if it has one)
+    Mark(Entity, bool, bool),
     /// event type, sequence number, server entity (as real Entity) for CEM / CT
     Ev(String, u32, Option<Entity>),
 }
@@ -231,6 +297,7 @@ struct Cfg {
     rel: bool,
     /// `ChildOf` is replicated (component kind 5): client-side despawns are recursive over the hierarchy
     hier: bool,
+    markers: bool,
     mismatch_kind: String,
     /// initial value of `ServerTick` (a long-running server: close to the 2^32 wrap)
     tick0: u32,
@@ -274,6 +341,13 @@ fn add_common(app: &mut App, cfg: &Cfg, server_side: bool) {
         .replicate_periodic::<P>(2);
     if cfg.hier {
         app.replicate::<ChildOf>();
+    }
+    if cfg.markers {
+        use bevy_replicon::shared::replication::command_markers::{AppMarkerExt, MarkerConfig};
+        app.register_marker_with::<MA>(MarkerConfig { need_history: true, ..Default::default() })
+            .register_marker::<MB>()
+            .set_marker_fns::<MA, A>(write_shadow_a, remove_shadow_a)
+            .set_marker_fns::<MB, B>(write_shadow_b, remove_shadow_b);
     }
     app.add_server_event::<SE0>(Channel::Ordered)
         .add_server_event::<SEI>(Channel::Ordered)
@@ -619,6 +693,27 @@ fn apply_cops(world: &mut World) {
                 if let Some(e) = world.resource::<Pre>().0.get(&pc).copied() {
                     if let Ok(em) = world.get_entity_mut(e) {
                         em.despawn();
+                    }
+                }
+            }
+            Cop::Mark(se, ma, mb) => {
+                let local = world.resource::<ServerEntityMap>().to_client().get(&se).copied();
+                if let Some(l) = local {
+                    if let Ok(mut em) = world.get_entity_mut(l) {
+                        // the shadow starts from what the entity holds now, stamped with its confirmed tick
+                        let last = em.get::<ConfirmHistory>().map(|h| h.last_tick());
+                        if ma {
+                            if let (Some(a), Some(t)) = (em.get::<A>().copied(), last) {
+                                em.insert(ShadowA(a.0, t));
+                            }
+                            em.insert(MA);
+                        }
+                        if mb {
+                            if let Some(b) = em.get::<B>().copied() {
+                                em.insert(ShadowB(b));
+                            }
+                            em.insert(MB);
+                        }
                     }
                 }
             }
@@ -1172,10 +1267,14 @@ impl Sim {
         let describe = |world: &World, ce: Entity| -> String {
             let Ok(er) = world.get_entity(ce) else { return "dead".into() };
             let mut cs = Vec::new();
-            if let Some(a) = er.get::<A>() {
+            if let Some(sh) = er.get::<ShadowA>() {
+                cs.push(format!("0={}", sh.0));
+            } else if let Some(a) = er.get::<A>() {
                 cs.push(format!("0={}", a.0));
             }
-            if let Some(a) = er.get::<B>() {
+            if let Some(sh) = er.get::<ShadowB>() {
+                cs.push(format!("1={}", b_str(&sh.0)));
+            } else if let Some(a) = er.get::<B>() {
                 cs.push(format!("1={}", b_str(a)));
             }
             if let Some(a) = er.get::<O>() {
@@ -1334,6 +1433,11 @@ impl Sim {
                 let op = match t[2] {
                     "prespawn" => Cop::Prespawn(t[3].parse().unwrap()),
                     "despawn" => Cop::Despawn(t[3].parse().unwrap()),
+                    "mark" => {
+                        let id: u32 = t[3].parse().unwrap();
+                        let se = self.server.world().resource::<Table>().ents.get(&id).copied().unwrap_or(Entity::from_raw(4_000_001));
+                        Cop::Mark(se, t[4].contains('a'), t[4].contains('b'))
+                    }
                     _ => {
                         // cop <c> ev <type> <seq> [r<entity>]
                         let ent = t.get(5).and_then(|s| s.trim_start_matches('r').parse::<u32>().ok());
@@ -1449,7 +1553,7 @@ fn parse_sop(t: &[&str]) -> Option<Sop> {
 }
 
 fn parse_cfg(line: &str) -> Cfg {
-    let mut cfg = Cfg { mismatch_kind: "event".into(), mismatch: None, rel: false, hier: false, tick0: 0, policy: "all".into(), auth: "none".into(), track: false, timeout_ms: 10_000, nclients: 1 };
+    let mut cfg = Cfg { mismatch_kind: "event".into(), mismatch: None, rel: false, hier: false, markers: false, tick0: 0, policy: "all".into(), auth: "none".into(), track: false, timeout_ms: 10_000, nclients: 1 };
     for kv in line.split_whitespace().skip(1) {
         let Some((k, v)) = kv.split_once('=') else { continue };
         match k {
@@ -1460,6 +1564,7 @@ fn parse_cfg(line: &str) -> Cfg {
             "nclients" => cfg.nclients = v.parse().unwrap(),
             "rel" => cfg.rel = v == "1",
             "hier" => cfg.hier = v == "1",
+            "markers" => cfg.markers = v == "1",
             "mkind" => cfg.mismatch_kind = v.into(),
             "tick0" => cfg.tick0 = v.parse().unwrap(),
             "mismatch" => cfg.mismatch = v.parse().ok(),
